@@ -482,8 +482,8 @@ def plan (tier, seed):
     sp += [dict(mode="nx", per=60, sub=i) for i in range(4)]
     sp += [dict(mode="max", n=4, sub=0)]
     return sp
-  sp = [dict(mode="of", per=2500, sub=i) for i in range(32)]
-  sp += [dict(mode="nx", per=1500, sub=i) for i in range(12)]
+  sp = [dict(mode="of", per=5000, sub=i) for i in range(48)]
+  sp += [dict(mode="nx", per=4000, sub=i) for i in range(24)]
   sp += [dict(mode="max", n=25, sub=i) for i in range(8)]
   return sp
 
